@@ -472,19 +472,43 @@ type Builtin struct {
 }
 
 func (c *Ctx) Registry() (reg *ssa.Global, entries []Builtin, other []string) {
+	// the registry is the package-level sync.Map the initialiser fills; other sync.Map globals (caches ...) are
+	// not its business (C08/C09 judge them)
+	initStores := map[*ssa.Global]int{}
+	var cands []*ssa.Global
 	for _, m := range c.P.Pkg.Members {
 		g, ok := m.(*ssa.Global)
-		if !ok {
+		if ok && deref(g.Type()).String() == "sync.Map" {
+			cands = append(cands, g)
+		}
+	}
+	sort.Slice(cands, func(i, j int) bool { return cands[i].Name() < cands[j].Name() })
+	for _, f := range c.P.ModFuncs {
+		if !strings.HasPrefix(f.Name(), "init") {
 			continue
 		}
-		if deref(g.Type()).String() == "sync.Map" {
-			if reg != nil {
-				other = append(other, "more than one sync.Map global: "+g.Name())
+		instrs(f, func(b *ssa.BasicBlock, i int, in ssa.Instruction) {
+			if call, ok := in.(*ssa.Call); ok {
+				if cal := calleeOf(call); cal != nil && cal.String() == "(*sync.Map).Store" {
+					if g, isG := call.Call.Args[0].(*ssa.Global); isG {
+						initStores[g]++
+					}
+				}
 			}
-			if reg == nil || g.Name() == "innerMap" {
-				reg = g
-			}
+		})
+	}
+	for _, g := range cands {
+		if initStores[g] == 0 {
+			continue
 		}
+		if reg != nil {
+			other = append(other, "more than one sync.Map global is filled by init: "+g.Name())
+			continue
+		}
+		reg = g
+	}
+	if reg == nil && len(cands) == 1 {
+		reg = cands[0]
 	}
 	if reg == nil {
 		return nil, nil, other
@@ -512,6 +536,11 @@ func (c *Ctx) Registry() (reg *ssa.Global, entries []Builtin, other []string) {
 			}
 			kc, ok := k.(*ssa.Const)
 			if !ok || kc.Value == nil || kc.Value.Kind() != constant.String {
+				// `for name, fn := range table { reg.Store(name, fn) }` over a local table with constant keys
+				if es, okT := c.rangedTableEntries(k, call.Call.Args[2], c.P.InstrPos(in)); okT {
+					entries = append(entries, es...)
+					return
+				}
 				other = append(other, "non-constant registry key at "+c.P.InstrPos(in))
 				return
 			}
@@ -537,4 +566,57 @@ func (c *Ctx) BuiltinFn(name string) *ssa.Function {
 		}
 	}
 	return found
+}
+
+// rangedTableEntries: key and value are the two results of ranging over a map made locally and filled with
+// constant string keys and function values; returns one entry per element of that table.
+func (c *Ctx) rangedTableEntries(k, v ssa.Value, pos string) ([]Builtin, bool) {
+	strip := func(x ssa.Value) ssa.Value {
+		for {
+			switch y := x.(type) {
+			case *ssa.MakeInterface:
+				x = y.X
+				continue
+			case *ssa.ChangeInterface:
+				x = y.X
+				continue
+			}
+			return x
+		}
+	}
+	ke, ok1 := strip(k).(*ssa.Extract)
+	ve, ok2 := strip(v).(*ssa.Extract)
+	if !ok1 || !ok2 || ke.Tuple != ve.Tuple || ke.Index != 1 || ve.Index != 2 {
+		return nil, false
+	}
+	nx, ok := ke.Tuple.(*ssa.Next)
+	if !ok {
+		return nil, false
+	}
+	rg, ok := nx.Iter.(*ssa.Range)
+	if !ok {
+		return nil, false
+	}
+	mk, ok := rg.X.(*ssa.MakeMap)
+	if !ok {
+		return nil, false
+	}
+	var out []Builtin
+	for _, ref := range *mk.Referrers() {
+		switch x := ref.(type) {
+		case *ssa.MapUpdate:
+			kc, ok := x.Key.(*ssa.Const)
+			if !ok || kc.Value == nil || kc.Value.Kind() != constant.String {
+				return nil, false
+			}
+			val := strip(x.Value)
+			e := Builtin{Name: constant.StringVal(kc.Value), Val: val, Pos: c.P.InstrPos(x)}
+			e.Fn = fnValue(val)
+			out = append(out, e)
+		case *ssa.Range, *ssa.DebugRef:
+		default:
+			return nil, false
+		}
+	}
+	return out, len(out) > 0
 }
